@@ -2,5 +2,5 @@
    Only ExtrOcamlBasic's directives are used (bool, option, unit, list, prod, sumbool, sumor,
    andb, orb); nat, N, Z, positive stay the extracted inductives. *)
 Require Import ExtrOcamlBasic.
-Require Import XRead XArgs XReplace Walk Expr Find Numeric Glob PathModel Paths ExecSingle Delete ExecMulti ExecLimits Entry Regex.
-Separate Extraction XRead.ws_read XRead.bd_read XArgs.xargs_run XArgs.sys_budget XReplace.replace_argv XReplace.normalize Walk.walk Find.find_main_model Expr.eval_file Numeric.size_test Numeric.num_test Numeric.age_test Numeric.newer Numeric.mode_bits_match Glob.glob_match Glob.glob_text Paths.entry_path Paths.starting_points Paths.files0_names ExecSingle.exec_argv ExecSingle.exec_cwd PathModel.parent PathModel.file_name PathModel.join PathModel.strip_prefix Delete.delete_run ExecMulti.run ExecLimits.argmax_budget ExecLimits.kernel_accepts_b ExecLimits.kernel_limit Entry.seen Entry.seen_xtype Entry.lname_applies Regex.matches Regex.Plus Regex.Opt Regex.Interval.
+Require Import XRead XArgs XReplace Walk Expr Find Numeric Glob PathModel Paths ExecSingle Delete ExecMulti ExecLimits Entry Regex Printf PrintfValue.
+Separate Extraction XRead.ws_read XRead.bd_read XArgs.xargs_run XArgs.sys_budget XReplace.replace_argv XReplace.normalize Walk.walk Find.find_main_model Expr.eval_file Numeric.size_test Numeric.num_test Numeric.age_test Numeric.newer Numeric.mode_bits_match Glob.glob_match Glob.glob_text Paths.entry_path Paths.starting_points Paths.files0_names ExecSingle.exec_argv ExecSingle.exec_cwd PathModel.parent PathModel.file_name PathModel.join PathModel.strip_prefix Delete.delete_run ExecMulti.run ExecLimits.argmax_budget ExecLimits.kernel_accepts_b ExecLimits.kernel_limit Entry.seen Entry.seen_xtype Entry.lname_applies Regex.matches Regex.Plus Regex.Opt Regex.Interval Printf.run_printf PrintfValue.pv_f PrintfValue.pv_h PrintfValue.pv_H PrintfValue.pv_P.
